@@ -11,6 +11,13 @@ use std::{
 static COUNTER: AtomicU64 = AtomicU64::new(0);
 
 pub fn scratch_root() -> PathBuf {
+    // worker processes work below their parent's root, so that the parent's clean-up also covers a
+    // worker that was killed or died
+    if let Ok(r) = std::env::var("VERIF_SCRATCH_ROOT") {
+        if !r.is_empty() {
+            return PathBuf::from(r);
+        }
+    }
     let base = if Path::new("/dev/shm").is_dir() {
         PathBuf::from("/dev/shm")
     } else {
@@ -48,6 +55,40 @@ impl Drop for Sandbox {
 
 pub fn cleanup_scratch() {
     let _ = fs::remove_dir_all(scratch_root());
+    sweep_stale();
+}
+
+/// removes scratch roots left behind by harness processes that no longer exist (killed, crashed)
+pub fn sweep_stale() {
+    if std::env::var("VERIF_SCRATCH_ROOT").map_or(false, |r| !r.is_empty()) {
+        return; // workers leave that to their parent
+    }
+    let base = match scratch_root().parent() {
+        Some(b) => b.to_path_buf(),
+        None => return,
+    };
+    if let Ok(rd) = fs::read_dir(&base) {
+        for e in rd.flatten() {
+            let name = e.file_name().to_string_lossy().into_owned();
+            if let Some(pid) = name.strip_prefix("verif-log4rs-").and_then(|p| p.parse::<u32>().ok()) {
+                if pid != std::process::id() && !Path::new(&format!("/proc/{}", pid)).exists() {
+                    let _ = fs::remove_dir_all(e.path());
+                }
+            }
+        }
+    }
+}
+
+/// free inodes of the file system holding the scratch root (None if unknown)
+pub fn free_inodes() -> Option<u64> {
+    let base = scratch_root().parent()?.to_path_buf();
+    let c = std::ffi::CString::new(base.to_string_lossy().as_bytes()).ok()?;
+    let mut st: libc::statvfs = unsafe { std::mem::zeroed() };
+    if unsafe { libc::statvfs(c.as_ptr(), &mut st) } == 0 {
+        Some(st.f_ffree as u64)
+    } else {
+        None
+    }
 }
 
 #[derive(Clone, Debug, PartialEq, Eq, Hash, PartialOrd, Ord)]
